@@ -236,7 +236,7 @@ def scan_assumptions(lines, origin):
     for k, t in enumerate(lines):
         c = re.sub(r'//.*$', '', t)
         mo = ASSUME_RX.search(c)
-        if mo:
+        if mo and origin[k][1] != 'framework.py':
             kind = mo.group(1).rstrip('( ').strip()
             # name: the next fn / the assume_specification target
             name = None
@@ -253,24 +253,11 @@ def scan_assumptions(lines, origin):
     return found
 
 
-def run_verus(unit, repo, scratch, seed=0, rlimit_mult=1.0, extra_args=None, tag=''):
-    """extract + verify one unit.  Returns a dict with everything the classifier needs."""
-    units = load_json(os.path.join(CONTRACTS, 'units.json'))
-    u = units[unit]
-    stem = '%s%s' % (unit, tag)
-    out_rs = os.path.join(scratch, stem + '.rs')
-    subst = load_json(os.path.join(CONTRACTS, 'subst.json')) if os.path.exists(os.path.join(CONTRACTS, 'subst.json')) else {}
-    subst = {k: [tuple(r) for r in v] for k, v in subst.items()}
-    t0 = time.time()
-    rep = extract.build_unit(os.path.join(CONTRACTS, u['overlay']), BASE, repo, out_rs, subst_tables=subst)
-    lines, origin = rep['lines'], rep['origin']
-    t_extract = time.time() - t0
+def _verus_once(unit, out_rs, scratch, lines, origin, rep, rlimit_mult, extra_args, t_extract):
     fns = index_functions(lines, origin)
     cmd = ['verus', out_rs, '--num-threads', str(os.cpu_count() or 8), '--error-format=json', '--output-json', '--time-expanded']
     if rlimit_mult != 1.0:
         cmd += ['--rlimit', str(int(10 * rlimit_mult))]
-    if seed:
-        cmd += ['-V', 'smt-option=smt.random_seed=%d' % seed] if False else []
     if extra_args:
         cmd += extra_args
     t0 = time.time()
@@ -339,6 +326,50 @@ def run_verus(unit, repo, scratch, seed=0, rlimit_mult=1.0, extra_args=None, tag
         errs.append({'message': msg, 'code': (d.get('code') or {}).get('code') if d.get('code') else None, 'sites': sites,
                      'rendered': (d.get('rendered') or '')[:3000]})
     res['errors'] = errs
+    return res
+
+
+def run_verus(unit, repo, scratch, seed=0, rlimit_mult=1.0, extra_args=None, tag=''):
+    """extract + verify one unit.  Returns a dict with everything the classifier needs."""
+    units = load_json(os.path.join(CONTRACTS, 'units.json'))
+    u = units[unit]
+    stem = '%s%s' % (unit, tag)
+    out_rs = os.path.join(scratch, stem + '.rs')
+    subst = load_json(os.path.join(CONTRACTS, 'subst.json')) if os.path.exists(os.path.join(CONTRACTS, 'subst.json')) else {}
+    subst = {k: [tuple(r) for r in v] for k, v in subst.items()}
+    t0 = time.time()
+    rep = extract.build_unit(os.path.join(CONTRACTS, u['overlay']), BASE, repo, out_rs, subst_tables=subst)
+    lines, origin = rep['lines'], rep['origin']
+    t_extract = time.time() - t0
+    synthetic = []
+    for attempt in range(3):
+        res = _verus_once(unit, out_rs, scratch, lines, origin, rep, rlimit_mult, extra_args, t_extract)
+        fns = res['fns']
+        nodec = [e for e in res['errors'] if 'loop must have a decreases clause' in e['message']]
+        if not nodec or attempt == 2:
+            break
+        # a loop without a decreases clause stops Verus before it verifies anything: record the missing termination
+        # argument as a failed obligation of that function and let the rest of the unit be verified
+        targets = set()
+        for e in nodec:
+            site = failing_fn(e)
+            if site and site['fn']:
+                targets.add(site['fn'])
+                e2 = dict(e)
+                e2['message'] = 'could not prove termination: loop without a decreases clause'
+                synthetic.append(e2)
+        if not targets:
+            break
+        by_path = {f.path: f for f in fns}
+        ins = sorted((by_path[t].start - 1 for t in targets if t in by_path), reverse=True)
+        for q in ins:
+            ind = lines[q][:len(lines[q]) - len(lines[q].lstrip())]
+            lines.insert(q, ind + '#[verifier::exec_allows_no_decreases_clause]')
+            origin.insert(q, ('A', 'framework.py', 0))
+        with open(out_rs, 'w') as fh:
+            fh.write('\n'.join(lines) + '\n')
+    res['errors'] = synthetic + [e for e in res['errors'] if 'loop must have a decreases clause' not in e['message']]
+    # the sites of the synthetic errors refer to the first emission; re-anchor them by function only
     res['assumption_scan'] = scan_assumptions(lines, origin)
     return res
 
